@@ -484,6 +484,31 @@ Fixpoint lastc {A} (l : list A) : option A :=
 (* the defect L001 names: the line ends in a space or a tab *)
 Definition ends_blank (l : list ch) : Prop := exists c, lastc l = Some c /\ is_blank c = true.
 
+(* what L002 and L003 name *)
+(* indentation kind of a line: 0 none, 1 tabs only, 2 spaces only, 3 mixed *)
+Definition ikind (l : list ch) : N :=
+  match leading_ws l with
+  | [] => 0
+  | lw => if existsb is_tab lw && existsb is_sp lw then 3 else if existsb is_tab lw then 1 else 2
+  end.
+(* the indentation style of the first purely indented line *)
+Fixpoint first_pure (ks : list N) : N :=
+  match ks with
+  | [] => 0
+  | k :: r => if (k =? 1) || (k =? 2) then k else first_pure r
+  end.
+Definition eff (first : N) (pre : list (list ch)) : N := if first =? 0 then first_pure (map ikind pre) else first.
+(* the defect L002 names: the line mixes tabs and spaces, or is purely indented in another style than the first such line *)
+Definition l002_defect (first : N) (pre : list (list ch)) (l : list ch) : Prop :=
+  ikind l = 3 \/ ((ikind l = 1 \/ ikind l = 2) /\ eff first pre <> 0 /\ eff first pre <> ikind l).
+
+(* number of consecutive blank lines from line i (0-based) on *)
+Definition run_from (is_space : N -> bool) (ls : list (list ch)) (i : nat) : nat := length (take_l (blank_line is_space) (skipn i ls)).
+(* line i is blank and is the first of its run (cnt = blank lines pending before the list) *)
+Definition startsG (is_space : N -> bool) (cnt : nat) (ls : list (list ch)) (i : nat) : Prop :=
+  (exists l, nth_error ls i = Some l /\ blank_line is_space l = true) /\
+  match i with O => cnt = 0%nat | S j => exists p, nth_error ls j = Some p /\ blank_line is_space p = false end.
+
 Section Spec.
   Variable is_space : N -> bool.
   Variable upper_ascii : N -> option N.
